@@ -340,7 +340,7 @@ def c09_batches(tier):
 def c09_extra(tier, batches, results, cov):
     mx = 0.0
     for b in cov["per_batch"]:
-        mx = max(mx, b["stats"].get("extprod.maxdiff", 0.0))
+        mx = max(mx, b["stats"].get("extprod_ratio.max", 0.0))
     return {"largest_fft_discrepancy_over_tolerance": mx, "probes_cmux_blindrot": {k: v for k, v in cov["probes"].items() if k.startswith(("cmux", "blindrot", "extprod"))}}
 
 
